@@ -1067,3 +1067,14 @@ V('c01-iterative-pointers-resume-overwritten', 'C01', 'C01.PRIMS', INCF, _ITER_O
 V('c02-iterative-pointers-resume-overwritten', 'C02', 'C02.FAITHFUL', INCF, _ITER_OLD_TAIL, _ITER_NEW_TAIL % "resume_at = off + DNS_COMPRESSION_POINTER_LEN", names=['resume'], more=_ITER_MORE)
 V('c01-twin-iterative-pointers-resume-kept', 'C01', 'C01.PRIMS', INCF, _ITER_OLD_TAIL, _ITER_NEW_TAIL % "if not resume_at:\n                resume_at = off + DNS_COMPRESSION_POINTER_LEN", expect='silent', more=_ITER_MORE,
   not_for=['C02'])  # same names and positions, but the pointer targets are no longer memoised: the work bound C02 speaks of is not preserved
+
+# ---------------------------------------------------------------- round 10: section-count bound in the header reader
+_HDR_OLD = "        self._num_additionals = view[offset + 10] << 8 | view[offset + 11]\n"
+_HDR_NEW = _HDR_OLD + """        num_records = self._num_answers + self._num_authorities + self._num_additionals
+        min_length = self._num_questions * 5 + num_records * 11
+        if self.offset + min_length %s self._data_len:
+            raise IncomingDecodeError(f"Section counts need {min_length} bytes from {self.source}")
+"""
+V('c02-count-bound-refuses-exact-fit', 'C02', 'C02.FAITHFUL', INCF, _HDR_OLD, _HDR_NEW % '>=', names=['_read_header'])
+V('c02-count-bound-overestimates-entry', 'C02', 'C02.FAITHFUL', INCF, _HDR_OLD, (_HDR_NEW % '>').replace('* 11', '* 12'), names=['_read_header'])
+V('c02-twin-count-bound-strict', 'C02', 'C02.FAITHFUL', INCF, _HDR_OLD, _HDR_NEW % '>', expect='silent')
